@@ -341,3 +341,9 @@ Definition check_C10 (h : list ev) : bool := check_from o0 h.
    taken again after the winner's wait returned ---------- *)
 Definition check_race (k n_ok n_already n_other : nat) (where_winner respawn_ok : bool) : bool :=
   Nat.eqb n_ok 1 && Nat.eqb (n_ok + n_already) k && Nat.eqb n_other 0 && where_winner && respawn_ok.
+
+(* threads looping spawn(name) / lookup / stop / wait / lookup on a few names: a thread whose
+   spawn succeeded is the live holder until it stops (every lookup must find it), and must not
+   be found once its wait() returned *)
+Definition check_hammer (live_not_found found_after_wait other : nat) : bool :=
+  Nat.eqb live_not_found 0 && Nat.eqb found_after_wait 0 && Nat.eqb other 0.
